@@ -458,7 +458,7 @@ impl Searcher {
         // we need to exaust all captures in the current position before we evaluate it
         if current_depth >= max_depth {
             #[cfg(weechess_verif)]
-            verif::wb_simple("Quiesce");
+            verif::wb_quiesce();
 
             return Self::quiescence_search(
                 game_state,
@@ -618,14 +618,26 @@ impl Searcher {
         // Capture sequences are not depth limited and can take far longer than the
         // rest of an iteration, so a stop request has to be noticed here as well
         if token.is_cancelled() {
+            #[cfg(weechess_verif)]
+            verif::q_interrupt();
+
             return Err(SearchInterrupt);
         }
+
+        #[cfg(weechess_verif)]
+        verif::q_enter(depth, alpha, beta);
 
         let mut buffer = MoveGenerationBuffer::new();
         MoveGenerator::compute_legal_moves_into(&game_state, &mut buffer);
 
         // Don't bother searching further, this is checkmate or stalemate
         if buffer.legal_moves.is_empty() {
+            #[cfg(weechess_verif)]
+            verif::q_leave(
+                "QTerminal",
+                evaluator.evaluate(game_state, game_state.turn_to_move(), depth),
+            );
+
             return Ok(evaluator.evaluate(game_state, game_state.turn_to_move(), depth));
         }
 
@@ -634,11 +646,20 @@ impl Searcher {
 
         let mut alpha = alpha;
 
+        #[cfg(weechess_verif)]
+        verif::q_static(normal_eval, is_quiet);
+
         if is_quiet {
+            #[cfg(weechess_verif)]
+            verif::q_leave("QReturn", normal_eval);
+
             return Ok(normal_eval);
         }
 
         if normal_eval >= beta {
+            #[cfg(weechess_verif)]
+            verif::q_leave("QReturn", beta);
+
             return Ok(beta);
         }
 
@@ -666,9 +687,19 @@ impl Searcher {
                 continue;
             }
 
+            #[cfg(weechess_verif)]
+            verif::q_descend(mv);
+
             let evaluation =
                 -Self::quiescence_search(new_state, evaluator, token, depth + 1, -beta, -alpha)?;
+
+            #[cfg(weechess_verif)]
+            verif::q_child(evaluation);
+
             if evaluation >= beta {
+                #[cfg(weechess_verif)]
+                verif::q_leave("QReturn", beta);
+
                 return Ok(beta);
             }
 
@@ -676,6 +707,9 @@ impl Searcher {
                 alpha = evaluation;
             }
         }
+
+        #[cfg(weechess_verif)]
+        verif::q_leave("QReturn", alpha);
 
         Ok(alpha)
     }
